@@ -297,12 +297,21 @@ def run(prop, tier):
             write_trace(td, st, offsets=ot, offsets_name="offs.txt" if use_c else "clock-offsets.txt")
             arg, cwd = spelled(td, sum(len(c) for c in combo) + len(looms[0]))
             args = (["-c", os.path.join(td, "offs.txt")] if use_c else []) + [arg]
-            rc, out, err = emusrv.run_tool(emu, args, cwd=cwd)
+            # "any number of streams": with 40 streams the tools may hold only 30 descriptors at a time (what thousands of
+            # streams are to the usual limit of 1024); a loaded stream needs none
+            nofile = 30 if len(combo) >= 40 else None
+            rc, out, err = emusrv.run_tool(emu, args, cwd=cwd, nofile=nofile)
             if rc != 0:
                 e = [l for l in err.split("\n") if "ERROR" in l]
                 e = e[:2] + [l for l in e[2:] if "clock gate" in l][:1]
-                return "ovniemu rejected a sorted trace (exit %r): %s" % (rc, " | ".join(e))
-            return check_prv(open(os.path.join(td, "thread.prv")).read(), st, ot)
+                return "ovniemu rejected a sorted trace%s (exit %r): %s" % (" with %d descriptors allowed" % nofile if nofile else "", rc, " | ".join(e))
+            msg = check_prv(open(os.path.join(td, "thread.prv")).read(), st, ot)
+            if msg is None and nofile:
+                for tool in (dump, top):
+                    rc, out, err = emusrv.run_tool(tool, [arg], cwd=cwd, nofile=nofile)
+                    if rc != 0:
+                        return "%s exit %r on %d streams with %d descriptors allowed: %s" % (os.path.basename(tool).split("-")[0], rc, len(combo), nofile, err[-160:])
+            return msg
         for j, msg in zip(jobs, pmap(one_emu, jobs)):
             ctx.add(evaluations=1, transitions=sum(len(c) for c in j[0]), traces_validated_against_impl=1)
             if msg:
